@@ -56,15 +56,15 @@ Den(t) ==
     [] OTHER      -> << >>
 
 \* a leaf: den, markers in feature direction, gap (>= 0 only for a site)
-Leaf(d, a, b, g) == [den |-> d, m5 |-> a, m3 |-> b, gap |-> g]
-FlipLeaf(lf)     == [den |-> RevFlip(lf.den), m5 |-> lf.m3, m3 |-> lf.m5, gap |-> lf.gap]
+Leaf(d, a, b, g) == [den |-> d, m5 |-> a, m3 |-> b, gap |-> g, amb |-> FALSE]
+FlipLeaf(lf)     == [den |-> RevFlip(lf.den), m5 |-> lf.m3, m3 |-> lf.m5, gap |-> lf.gap, amb |-> lf.amb]
 
 RECURSIVE Leaves(_)
 Leaves(t) ==
   CASE t.k = "pt" -> << Leaf(Den(t), FALSE, FALSE, -1) >>
     [] t.k = "bw" -> << Leaf(<<>>, FALSE, FALSE, t.p) >>
     [] t.k = "rg" -> << Leaf(Den(t), t.p5, t.p3, -1) >>
-    [] t.k = "am" -> << Leaf(Den(t), FALSE, FALSE, -1) >>
+    [] t.k = "am" -> << [Leaf(Den(t), FALSE, FALSE, -1) EXCEPT !.amb = TRUE] >>
     [] t.k = "jn" -> FlatSeq([j \in 1..Len(t.xs) |-> Leaves(t.xs[j])])
     [] t.k = "od" -> FlatSeq([j \in 1..Len(t.xs) |-> Leaves(t.xs[j])])
     [] t.k = "cp" -> LET ls == Leaves(t.x)
@@ -89,6 +89,14 @@ WF(t, L) ==
     [] t.k = "od" -> Len(t.xs) > 0 /\ \A j \in 1..Len(t.xs) : WF(t.xs[j], L)
     [] t.k = "cp" -> WF(t.x, L)
     [] OTHER      -> FALSE
+
+\* some ambiguous span of t would cross the origin after rotating by m
+RECURSIVE AmCrosses(_, _, _)
+AmCrosses(t, m, L) ==
+  CASE t.k = "am" -> ((t.s + m) % L) + (t.e - t.s) > L
+    [] t.k \in {"jn", "od"} -> \E j \in 1..Len(t.xs) : AmCrosses(t.xs[j], m, L)
+    [] t.k = "cp" -> AmCrosses(t.x, m, L)
+    [] OTHER -> FALSE
 
 RECURSIVE HasNil(_)
 HasNil(t) ==
